@@ -39,8 +39,6 @@ hc!(c02_t_s3_m3, sk_obj(&S3_TAB, 3, 5), p_cat::<S3>(true, true));
 hc!(c02_t_s4_m3, sk_obj(&S4_TAB, 3, 5), p_cat::<S4>(true, true));
 hc!(c02_t_s5_m3, sk_obj(&S5_TAB, 3, 4), p_cat::<S5>(true, true));
 hc!(c02_t_s1_m1, sk_obj(&S1_TAB, 1, 7), p_cat::<S1>(false, true));
-hc!(c02_t_s1_leaf, sk_leaf_tab(&S1_TAB), p_cat::<S1>(false, false));
-hc!(c02_t_e1_leaf, sk_leaf_tab(&E1_TAB), p_cat::<E1>(false, false));
 
 // ---- C01: free script
 hc!(c01_t_s1_m2, sk_obj(&S1_TAB, 2, 7), p_c01::<S1>(true));
@@ -76,7 +74,6 @@ hc!(c04_t_e3_leaf, sk_leaf_tab(&E3_TAB), p_c04::<E3>(false));
 // ---- C15: member order
 hc!(c15_t_s1_m2, sk_obj(&S1_TAB, 2, 7), p_c15::<S1>(2));
 hc!(c15_t_e1_taglast2_model, sk_enum_last(&E1_TAB, 0, &[1, 2, 3, 7], 2, &[4, 5, 6]), p_cat::<E1>(true, true));
-hc!(c15_t_s3_m2, sk_obj(&S3_TAB, 2, 5), p_c15::<S3>(2));
 hc!(c15_t_s1_m3, sk_obj(&S1_TAB, 3, 7), p_c15::<S1>(3));
 hc!(c15_t_s2_m3, sk_obj(&S2_TAB, 3, 6), p_c15::<S2>(3));
 hc!(c15_t_s4_m3, sk_obj(&S4_TAB, 3, 5), p_c15::<S4>(3));
